@@ -8,6 +8,16 @@ CMDS = ["build", "test", "lint"]
 STATUS = {"success": 0, "error": 1, "undefined": 2, "not_executable": 3, "skipped": 4}
 
 def gen_dag_config(rng, n=None):
+    if n is None and rng.random() < 0.3:
+        # layered shape with shared dependencies and a tail beneath them: app -> {liba, libb} -> core -> base (+ extras)
+        w = rng.randint(2, 3)
+        targets = [{"path": "app", "uses": ["lib%d" % i for i in range(w)]}] + \
+                  [{"path": "lib%d" % i, "uses": ["core"] + (["lib%d" % (i - 1)] if i and rng.random() < 0.3 else [])} for i in range(w)] + \
+                  [{"path": "core", "uses": ["base"]}, {"path": "base"}]
+        if rng.random() < 0.5: targets.append({"path": "tool"})
+        if rng.random() < 0.5: targets.append({"path": "base/gen", "uses": []})
+        rng.shuffle(targets)
+        return {"targets": targets, "sequences": {"ci": ["build", "test"], "all": ["lint", "build"]}}
     n = n or rng.randint(2, 7)
     names = []
     for i in range(n):
@@ -30,8 +40,8 @@ def gen_dag_config(rng, n=None):
 def depth_map(groups):
     return {t: gi for gi, g in enumerate(groups) for t in g}
 
-def run_case(ctx, rng, focus):
-    cfg = gen_dag_config(rng)
+def run_case(ctx, rng, focus, forced=None):
+    cfg = forced["cfg"] if forced else gen_dag_config(rng)
     paths = [t["path"] for t in cfg["targets"]]
     # invocation
     use_seq = rng.random() < 0.3
@@ -42,7 +52,8 @@ def run_case(ctx, rng, focus):
         cmds = [c for c in cmds if c not in sum((cfg["sequences"][s] for s in seqs), [])]
         expected_cmds = sum((cfg["sequences"][s] for s in seqs), []) + cmds
     if not expected_cmds: cmds = ["build"]; expected_cmds = ["build"]
-    mode = rng.choice(["all", "all", "changed", "explicit", "deps", "deps"])
+    mode = rng.choice(["all", "changed", "explicit", "deps", "deps"] if focus != "C05" else ["all", "changed", "explicit", "deps", "deps", "deps"])
+    if forced: mode = forced["mode"]
     fou = rng.random() < 0.4
     kinds = {}
     for c in CMDS:
@@ -56,7 +67,7 @@ def run_case(ctx, rng, focus):
         if cmds: args += ["-c"] + cmds
         named = None
         if mode in ("explicit", "deps"):
-            named = rng.sample(paths, rng.randint(1, min(3, len(paths))))
+            named = forced["named"] if forced else rng.sample(paths, rng.randint(1, min(3, len(paths))))
             args += ["-t"] + named
             if mode == "deps": args.append("--deps")
         if fou: args.append("--fail-on-undefined")
@@ -72,9 +83,12 @@ def run_case(ctx, rng, focus):
         if mode in ("all", "changed"):
             sel_groups = an["target_groups"]; selected = an["targets"]
         elif mode == "deps":
+            # the expected closure and layering come from the MODEL (adj_of + api_groups), not from the implementation
             r = ctx.harness.call(fn="index_groups", cfg=G.cfg_json(cfg), mk=paths, visible=named)
-            if "ok" not in r: ctx.count("deps_rejected"); return
-            sel_groups = r["ok"]; selected = sorted(t for g in sel_groups for t in g)
+            import graphs
+            mv = ctx.model.call("index_groups", G.cfg_val(cfg), named, graphs.enc_groups_impl(r))
+            if mv[1][0] != 1: ctx.count("deps_rejected"); return
+            sel_groups = [[vlib.dstr(x) for x in g] for g in mv[1][1]]; selected = sorted(t for g in sel_groups for t in g)
         else:
             sel_groups = None; selected = sorted(named)
         depth = depth_map(sel_groups) if sel_groups else {t: 0 for t in selected}
@@ -94,10 +108,21 @@ def run_case(ctx, rng, focus):
                 if (c, t) in fail_at: ins["exit"] = rng.randint(1, 255)
                 codes[(c, t)] = ins.get("exit", 0)
                 script["%s|%s" % (c, t)] = ins
+        if focus == "C06" and fail_at and sel_groups and rng.random() < 0.5:
+            # a sibling of the failing task that closes its output early and succeeds later: it cannot be cancelled
+            # through its log readers, so its success is processed AFTER the failure
+            for (fc, ft) in list(fail_at):
+                grp = next((g for g in sel_groups if ft in g), [])
+                sibs = [t for t in grp if t != ft and (fc, t) not in fail_at and kinds.get((fc, t), "exec") == "exec"]
+                if sibs and ("%s|%s" % (fc, ft)) in script:
+                    sb = rng.choice(sibs)
+                    script["%s|%s" % (fc, ft)]["sleep_ms"] = 0
+                    script["%s|%s" % (fc, sb)] = {"sleep_ms": 400, "detach_output": True}
         rr.script = script; rr.write_script()
         rc, out, err, raw = rr.run(*args)
         traces = rr.traces()
         case = {"cfg": cfg, "args": args, "kinds": {"%s|%s" % k: v for k, v in kinds.items() if v != "exec"}, "script": script, "mode": mode}
+        if forced: case["forced"] = forced
         evaluate(ctx, focus, case, cfg, rr, rc, out, err, traces, expected_cmds, selected, sel_groups, kinds, codes, fou, mode, timing)
     finally:
         rr.close()
@@ -240,7 +265,7 @@ def forced_delay_case(ctx, rng, point, ms, n_targets):
         rr.close()
 
 def run(ctx, scale, focus):
-    n = {"C04": (14, 200), "C05": (16, 250), "C06": (16, 250)}[focus]
+    n = {"C04": (20, 250), "C05": (36, 400), "C06": (24, 300)}[focus]
     cdir = os.path.join(vlib.VERIF, "corpus", focus)
     if os.path.isdir(cdir):
         for f in sorted(os.listdir(cdir)):
@@ -248,6 +273,14 @@ def run(ctx, scale, focus):
     if focus == "C06":
         for point, ms in (("compressor_between_shutdowns", 40), ("compressor_before_join", 60), ("compressor_between_shutdowns", 5)) * (1 if ctx.quick() else 8):
             forced_delay_case(ctx, ctx.rng, point, ms, ctx.rng.choice([3, 4, 5]))
+    if focus == "C05":
+        # every single named target with --deps on layered graphs with shared dependencies and a tail beneath them
+        for rep in range(2 if ctx.quick() else 12):
+            r0 = random.Random(ctx.rng.getrandbits(32))
+            shape = None
+            while shape is None or "app" not in [t["path"] for t in shape["targets"]]: shape = gen_dag_config(r0)
+            for t in shape["targets"]:
+                run_case(ctx, random.Random(r0.getrandbits(32)), focus, forced={"cfg": shape, "mode": "deps", "named": [t["path"]]})
     for _ in range((n[0] if ctx.quick() else n[1]) * scale):
         cs = ctx.rng.getrandbits(32)
         before = len(ctx.spec_failures) + len(ctx.tie_breaks)
@@ -258,5 +291,6 @@ def run(ctx, scale, focus):
 
 def replay(ctx, case, focus):
     c = case.get("case", case)
-    if "case_seed" in c: run_case(ctx, random.Random(c["case_seed"]), focus)
+    if "forced" in c: run_case(ctx, random.Random(c.get("case_seed", ctx.seed)), focus, forced=c["forced"])
+    elif "case_seed" in c: run_case(ctx, random.Random(c["case_seed"]), focus)
     return {"spec_failures": [d for _, d in ctx.spec_failures][:3], "disagreements": [d for _, d in ctx.tie_breaks][:3]}
